@@ -2476,76 +2476,155 @@ func checkFramePushedBeforeEntryPoll(c *core.Ctx) {
 // that replaces the header of one of them (re-slice, append, grow) without replacing the other's breaks the length
 // relation every accessor relies on: a later call with a key in the gap indexes out of range in the host.
 func checkTableSlicesResizedTogether(c *core.Ctx) {
-	type site struct {
-		fields map[int]token.Pos
-	}
-	n := 0
-	doneAt := map[token.Pos]bool{}
-	var tableFields []int
+	// One body per source function (instantiations of a generic method share its position).
+	byPos := map[token.Pos]*ssa.Function{}
+	var order []token.Pos
 	for _, fn := range moduleFns(c, "internal/descriptor") {
-		if doneAt[fn.Pos()] {
-			continue // one instantiation of a generic body is enough
+		if fn.Parent() != nil {
+			continue
 		}
-		doneAt[fn.Pos()] = true
-		st := site{fields: map[int]token.Pos{}}
-		var tbl *types.Struct
-		for _, b := range fn.Blocks {
-			for _, in := range b.Instrs {
-				s, ok := in.(*ssa.Store)
-				if !ok {
-					continue
-				}
-				fa, ok := s.Addr.(*ssa.FieldAddr)
-				if !ok {
-					continue
-				}
-				pt, ok := fa.X.Type().Underlying().(*types.Pointer)
-				if !ok {
-					continue
-				}
-				sty, ok := pt.Elem().Underlying().(*types.Struct)
-				if !ok {
-					continue
-				}
-				if named, ok := pt.Elem().(*types.Named); !ok || named.Obj().Pkg() == nil || !strings.HasSuffix(named.Obj().Pkg().Path(), "internal/descriptor") {
-					continue
-				}
-				if _, isSlice := sty.Field(fa.Field).Type().Underlying().(*types.Slice); !isSlice {
-					continue
-				}
-				tbl = sty
-				if _, seen := st.fields[fa.Field]; !seen {
-					st.fields[fa.Field] = s.Pos()
+		if _, ok := byPos[fn.Pos()]; !ok {
+			byPos[fn.Pos()] = fn
+			order = append(order, fn.Pos())
+		}
+	}
+	direct := map[token.Pos]map[int]token.Pos{}
+	callees := map[token.Pos]map[token.Pos]bool{}
+	callers := map[token.Pos]map[token.Pos]bool{}
+	var tbl *types.Struct
+	for _, pos := range order {
+		fn := byPos[pos]
+		direct[pos] = map[int]token.Pos{}
+		callees[pos] = map[token.Pos]bool{}
+		var visit func(f *ssa.Function)
+		visit = func(f *ssa.Function) {
+			for _, b := range f.Blocks {
+				for _, in := range b.Instrs {
+					if mc, ok := in.(*ssa.MakeClosure); ok {
+						if af, ok := mc.Fn.(*ssa.Function); ok {
+							visit(af)
+						}
+					}
+					if ci, ok := in.(ssa.CallInstruction); ok {
+						if sc := ci.Common().StaticCallee(); sc != nil {
+							if _, same := byPos[sc.Pos()]; same && sc.Pos() != pos {
+								callees[pos][sc.Pos()] = true
+							}
+						}
+					}
+					s, ok := in.(*ssa.Store)
+					if !ok {
+						continue
+					}
+					fa, ok := s.Addr.(*ssa.FieldAddr)
+					if !ok {
+						continue
+					}
+					pt, ok := fa.X.Type().Underlying().(*types.Pointer)
+					if !ok {
+						continue
+					}
+					sty, ok := pt.Elem().Underlying().(*types.Struct)
+					if !ok {
+						continue
+					}
+					if named, ok := pt.Elem().(*types.Named); !ok || named.Obj().Pkg() == nil || !strings.HasSuffix(named.Obj().Pkg().Path(), "internal/descriptor") {
+						continue
+					}
+					if _, isSlice := sty.Field(fa.Field).Type().Underlying().(*types.Slice); !isSlice {
+						continue
+					}
+					tbl = sty
+					if _, seen := direct[pos][fa.Field]; !seen {
+						direct[pos][fa.Field] = s.Pos()
+					}
 				}
 			}
 		}
-		if tbl == nil {
-			continue
+		visit(fn)
+	}
+	for p, cs := range callees {
+		for q := range cs {
+			if callers[q] == nil {
+				callers[q] = map[token.Pos]bool{}
+			}
+			callers[q][p] = true
 		}
-		tableFields = tableFields[:0]
+	}
+	var tableFields []int
+	if tbl != nil {
 		for i := 0; i < tbl.NumFields(); i++ {
 			if _, isSlice := tbl.Field(i).Type().Underlying().(*types.Slice); isSlice {
 				tableFields = append(tableFields, i)
 			}
 		}
-		if len(tableFields) < 2 {
-			continue // a single slice has no sibling to stay in step with
+	}
+	if tbl == nil || len(tableFields) < 2 {
+		c.Undecided("R15.10", "descriptor table", 0, "no function of internal/descriptor replaces a slice field of a table with two parallel slices (anchor: the function that grows the table)")
+		return
+	}
+	// total[f]: the slice fields replaced by f or by a function of the package it calls.
+	total := map[token.Pos]map[int]token.Pos{}
+	for _, pos := range order {
+		total[pos] = map[int]token.Pos{}
+		for k, v := range direct[pos] {
+			total[pos][k] = v
 		}
-		n++
+	}
+	for changed := true; changed; {
+		changed = false
+		for _, pos := range order {
+			for q := range callees[pos] {
+				for k, v := range total[q] {
+					if _, ok := total[pos][k]; !ok {
+						total[pos][k] = v
+						changed = true
+					}
+				}
+			}
+		}
+	}
+	complete := func(pos token.Pos) bool { return len(total[pos]) == len(tableFields) }
+	// A step that replaces only one slice is fine when every function that calls it (transitively) completes the pair.
+	var completedByCallers func(pos token.Pos, seen map[token.Pos]bool) bool
+	completedByCallers = func(pos token.Pos, seen map[token.Pos]bool) bool {
+		if complete(pos) {
+			return true
+		}
+		if seen[pos] {
+			return true
+		}
+		seen[pos] = true
+		if len(callers[pos]) == 0 {
+			return false
+		}
+		for g := range callers[pos] {
+			if !completedByCallers(g, seen) {
+				return false
+			}
+		}
+		return true
+	}
+	for _, pos := range order {
+		if len(direct[pos]) == 0 {
+			continue
+		}
+		fn := byPos[pos]
 		var missing []string
 		var at token.Pos
 		for _, i := range tableFields {
-			if _, ok := st.fields[i]; !ok {
+			if _, ok := total[pos][i]; !ok {
 				missing = append(missing, tbl.Field(i).Name())
 			} else {
-				at = st.fields[i]
+				at = total[pos][i]
 			}
 		}
-		c.Check(len(missing) == 0, "R15.10", core.SSAFuncName(fn)+" resizes the parallel slices of the descriptor table together", at,
-			fmt.Sprintf("all %d slice fields of the table are replaced in this function", len(tableFields)),
-			fmt.Sprintf("the function replaces the header of one slice of the table but not of %s: the accessors bound a key by the length of one slice and index the other (Lookup, Delete), so after this function a descriptor number in the gap indexes out of range in the host instead of giving EBADF", strings.Join(missing, ", ")))
-	}
-	if n == 0 {
-		c.Undecided("R15.10", "descriptor table", 0, "no function of internal/descriptor replaces a slice field of the table (anchor: the function that grows the table)")
+		name := fn.Name()
+		if fn.Origin() != nil {
+			name = fn.Origin().Name()
+		}
+		c.Check(completedByCallers(pos, map[token.Pos]bool{}), "R15.10", "internal/descriptor."+name+" resizes the parallel slices of the descriptor table together", at,
+			fmt.Sprintf("all %d slice fields of the table are replaced by this function, the steps it calls, or every function that calls it", len(tableFields)),
+			fmt.Sprintf("the function replaces the header of one slice of the table but not of %s (nor does a caller): the accessors bound a key by the length of one slice and index the other (Lookup, Delete), so after this function a descriptor number in the gap indexes out of range in the host instead of giving EBADF", strings.Join(missing, ", ")))
 	}
 }
